@@ -164,6 +164,11 @@ func init() {
 		extendProp(id, nd, []report.Floor{{Rule: "nil-deref", What: "actions", Min: 1000}},
 			func(c *Ctx) { defer c.cleanup(); c.flows_("nil-deref") })
 	}
+	const li = "list-index: wherever a grammar action (or a function of the package inlined into it) takes the first or last element of a list a right-hand-side symbol carries, or reslices it by one (`$3[len($3)-1]`, `$4[0]`, `$4[1:]`, `pairList.Items[0]`), the list is non-empty on that path: no production of the symbol yields an empty list and nil is either never yielded or tested on the path, or the list is built in the action with an element, or every production of the symbol fills the carrier's field with a non-empty list, or the path tests the length (17 sites in the PHP 5 grammar; an empty list there is an index-out-of-range panic on the input that makes it empty). Elements taken at a loop variable are not obligations of this rule."
+	for _, id := range []string{"C01", "C06", "C03"} {
+		extendProp(id, li, []report.Floor{{Rule: "list-index", What: "sites", Min: 10}},
+			func(c *Ctx) { defer c.cleanup(); c.flows_("list-index") })
+	}
 	extendProp("C01", "report-positions (see C06): a panic while building an error report is a crash.",
 		[]report.Floor{{Rule: "report-positions", What: "reports", Min: 4}},
 		func(c *Ctx) { defer c.cleanup(); c.flowRule("report-positions", flowRules["report-positions"]) })
